@@ -31,24 +31,27 @@ uint64_t st_mb_encode(void *self, void *to)
 }
 static uint32_t cs_ptr_off, cs_len;
 /* (the calc_chksum cut of codec_world.h records its length; the start pointer is checked through W_sum_from) */
-int main(void)
+/* One concrete-layout run per payload length: the symbolic length cx_T is compared with every value of the window in C code and
+   the encoder is run with that value as a constant (each run ends the program, so no state merging); the byte sum stays symbolic.
+   With a symbolic length the CheckSum field is stored at a symbolic offset of the output array and the query did not finish
+   (tools/reports/C02.md).  Two splits of the payload over the sub-encoders per length: (5, T-5, 0) and (7, T-13, 6). */
+static uint32_t TSEL; static uint8_t SPL;
+static int run(void)
 {
-  W_setup();
-  uint32_t n1 = nondet_u32(), n2 = nondet_u32(), n3 = nondet_u32();
-  VF_ASSUME(n1 <= HI && n2 <= HI && n3 <= HI); uint32_t T = n1 + n2 + n3; VF_ASSUME(T >= LO && T <= HI);
-  VF_ASSUME(n1 >= 5);                                  /* the header always encodes at least 35=x| */
-#ifdef FIXSPLIT
-  n1 = 5; n3 = 0; n2 = T - 5; VF_ASSUME(T >= 5);       /* one split only: framing depends on the sum; the back-to-back layout is still checked */
-#endif
+  const uint32_t T = TSEL;
+  uint32_t n1 = SPL ? 7 : 5, n3 = SPL ? 6 : 0, n2 = T - n1 - n3;
   cx_n1 = n1; cx_n2 = n2; cx_n3 = n3; n_sub[0] = n1; n_sub[1] = n2; n_sub[2] = n3;
   W_sum = nondet_u32(); VF_ASSUME(W_sum < 256); cx_sum = W_sum;
   uint8_t *store = out;
+  /* canaries: the room before the preamble and the 16 bytes behind the terminating NUL (the array is dimensioned for the largest length of the window) */
+  for (uint32_t i = 0; i < OFFS; i++) out[i] = 0xAA;
+  for (uint32_t i = 0; i < 16; i++) if (OFFS + T + 8 + i < OUTSZ) out[OFFS + T + 8 + i] = 0xAA;
   uint64_t r = vf_encode(&W_msg, &store);
   VF_ASSERT(!__vf_exc_pending, "C02: encoding a message with header, trailer and preamble fields does not throw"); __vf_exc_pending = 0;
   cx_ret = (uint32_t)r;
   VF_ASSERT(!enc_bad && enc_calls == 3, "C02: header, body and trailer are encoded back to back starting at the calculation offset");
   /* digits of BodyLength */
-  uint32_t nd = T < 10 ? 1 : T < 100 ? 2 : T < 1000 ? 3 : T < 10000 ? 4 : 5;
+  uint32_t nd = T < 10 ? 1 : T < 100 ? 2 : T < 1000 ? 3 : T < 10000 ? 4 : T < 100000 ? 5 : T < 1000000 ? 6 : 7;
   uint32_t hlen = 10 + 2 + nd + 1; cx_hlen = hlen;          /* "8=FIX.4.2|" + "9=" + digits + "|" */
   VF_ASSERT(store == out + OFFS - hlen, "C02: the encoded message starts exactly hlen bytes before the payload (hlen is the real width of 8= and 9=)");
   VF_ASSERT(r == hlen + T + 7, "C02: the returned length is preamble + payload + CheckSum field");
@@ -56,15 +59,31 @@ int main(void)
     const char *bs = "8=FIX.4.2\001" "9="; int ok = 1;
     for (int i = 0; i < 12; i++) if (store[i] != (uint8_t)bs[i]) ok = 0;
     VF_ASSERT(ok, "C02: the message starts with BeginString then BodyLength");
-    uint32_t p10 = nd == 1 ? 1 : nd == 2 ? 10 : nd == 3 ? 100 : nd == 4 ? 1000 : 10000; int dok = 1;
-    for (uint32_t i = 0; i < 5; i++) if (i < nd) { if (store[12 + i] != '0' + (T / p10) % 10) dok = 0; p10 /= 10; }
+    uint32_t p10 = 1; for (uint32_t i = 1; i < 7; i++) if (i < nd) p10 *= 10;
+    int dok = 1;
+    for (uint32_t i = 0; i < 7; i++) if (i < nd) { if (store[12 + i] != '0' + (T / p10) % 10) dok = 0; p10 /= 10; }
     VF_ASSERT(dok && store[12 + nd] == 1, "C02: BodyLength is the decimal byte count between the end of the BodyLength field and the start of the CheckSum field");
     uint8_t *t = out + OFFS + T;
     VF_ASSERT(t[0] == '1' && t[1] == '0' && t[2] == '=' && t[3] == '0' + W_sum / 100 && t[4] == '0' + (W_sum / 10) % 10 && t[5] == '0' + W_sum % 10 && t[6] == 1 && t[7] == 0,
               "C02: the message ends with 10=ddd<SOH> (three digits of the checksum) and a terminating NUL");
     VF_ASSERT(W_sum_calls == 1 && W_sum_len == hlen + T && W_sum_from == (void*)store, "C02: the checksum is taken over every byte before the CheckSum field");
   }
+  { int can = 1;
+    for (uint32_t i = 0; i < OFFS; i++) if (i + hlen < OFFS && out[i] != 0xAA) can = 0;
+    for (uint32_t i = 0; i < 16; i++) if (OFFS + T + 8 + i < OUTSZ && out[OFFS + T + 8 + i] != 0xAA) can = 0;
+    VF_ASSERT(can, "C02: nothing is written before the preamble or behind the terminating NUL"); }
   VF_ASSERT(vf_body_length(&W_hdr) == (uint32_t)T, "C02: the BodyLength field object holds the payload length");
   VF_REACH();
+  return 0;
+}
+uint32_t cx_T; uint8_t cx_split;
+int main(void)
+{
+  W_setup();
+  cx_T = nondet_u32(); VF_ASSUME(cx_T >= LO && cx_T <= HI);
+  cx_split = nondet_u8() & 1; VF_ASSUME(!cx_split || cx_T >= 13);
+  VF_ASSUME(cx_T >= 5);                                  /* the header always encodes at least 35=x| */
+  for (TSEL = LO; TSEL <= HI; TSEL++) if (cx_T == TSEL)
+    for (SPL = 0; SPL <= 1; SPL++) if (cx_split == SPL) return run();
   return 0;
 }
